@@ -342,6 +342,47 @@ func (e *mvEnv) judge(label string, m *nom.Momentum, blocks []*nom.AccountBlock)
 		if err != nil || *exp != producer {
 			c.Fail("mverify: accepted momentum signed by %v, a cold consensus instance elects %v (err %v) for its slot; %s", producer, exp, err, what)
 		}
+		// the account blocks an accepted momentum confirms extend, account by account and in content order, the account's
+		// confirmed chain as of the parent momentum: no height is skipped, every listed header has its block
+		func() {
+			defer func() { recover() }()
+			pst := ch.GetMomentumStore(m.Previous())
+			if pst == nil {
+				return
+			}
+			byID := map[types.HashHeight]*nom.AccountBlock{}
+			var flat func(bs []*nom.AccountBlock)
+			flat = func(bs []*nom.AccountBlock) {
+				for _, b := range bs {
+					byID[b.Identifier()] = b
+					flat(b.DescendantBlocks)
+				}
+			}
+			flat(blocks)
+			heads := map[types.Address]types.HashHeight{}
+			for _, h := range m.Content {
+				if types.IsEmbeddedAddress(h.Address) {
+					continue // contract receives carry their descendant sends (batches): C04 / C09 own their order
+				}
+				prevID, ok := heads[h.Address]
+				if !ok {
+					if fb, err := pst.GetFrontierAccountBlock(h.Address); err == nil && fb != nil {
+						prevID = fb.Identifier()
+					}
+				}
+				b := byID[h.Identifier()]
+				if b == nil {
+					c.Fail("mverify: accepted momentum lists account block %v/%d for which no block was delivered; %s", h.Address, h.Height, what)
+					return
+				}
+				if b.Height != prevID.Height+1 || b.PreviousHash != prevID.Hash {
+					c.Fail("mverify: accepted momentum confirms block height %d (previous %v) of account %v whose confirmed chain (with the blocks listed before it) ends at height %d (%v): a height of the account chain is skipped; %s", b.Height, b.PreviousHash, h.Address, prevID.Height, prevID.Hash, what)
+					return
+				}
+				heads[h.Address] = h.Identifier()
+			}
+			c.Hit("accepted-content-linkage-checked")
+		}()
 		if label != "valid" && label != "valid-next-slot" && label != "valid-content-reordered" && label != "fork-sibling" && label != "replay-frontier" {
 			c.Fail("mverify: a mutated momentum was accepted; %s", what)
 		}
@@ -489,6 +530,25 @@ func (e *mvEnv) round(gapSlots int64) {
 				m.Content = nom.NewMomentumContent(bl)
 				e.rehashSign(m, K)
 			})
+			// the same as a momentum the elected pillar BUILT that way (its changes are those of the blocks it lists): the real
+			// supervisor refuses to pack it; where it does not, the result goes to the judge like every other candidate
+			func() {
+				defer func() {
+					if x := recover(); x != nil {
+						c.Hit("built-without-first-block:panic")
+					}
+				}()
+				insert := ch.AcquireInsert("zvh mverify reduced")
+				tx2, err2 := e.build(prev, tsec, bl, K)
+				insert.Unlock()
+				if err2 != nil || tx2 == nil {
+					c.Hit("built-without-first-block:refused")
+					return
+				}
+				c.Hit("built-without-first-block:packed")
+				built := cloneMomentum(tx2.Momentum)
+				muts = append(muts, mut{lbl + "+built", func(m *nom.Momentum) { *m = *cloneMomentum(built) }, bl})
+			}()
 		}
 		if len(v.Content) > 1 {
 			// first and last header exchanged: still a valid momentum iff no account's own blocks change their relative
